@@ -262,6 +262,15 @@ func (s *Service) UpdateSyncCommitteeDataRecord(
 ) {
 	s.slotDataRecordsMu.Lock()
 	s.slotDataRecords[slot] = synccommitteemessenger.SlotData{Root: root, ValidatorToCommitteeIndex: validatorToCommitteeIndex}
+	// Records are otherwise only removed when inclusion verification is enabled;
+	// make sure that they do not accumulate without it.
+	if len(s.slotDataRecords) > maxSlotDataRecordsBeforeCleanUp {
+		for recordSlot := range s.slotDataRecords {
+			if recordSlot+minSlotDataRecordsToKeep < slot {
+				delete(s.slotDataRecords, recordSlot)
+			}
+		}
+	}
 	s.slotDataRecordsMu.Unlock()
 }
 
